@@ -1,10 +1,11 @@
 package main
 
 import (
+	"fmt"
 	"go/ast"
 	"go/token"
 	"go/types"
-	"regexp"
+	"os"
 	"strings"
 
 	"golang.org/x/tools/go/packages"
@@ -15,9 +16,9 @@ func init() {
 	register(&propDef{
 		ID:      "C20",
 		Level:   "other",
-		Explain: "Access-logging safety and structure: (P*) every bounds check the Go compiler's prove pass cannot eliminate in the access logger (logger.go, pattern.go) and in the request-path formatters (proxy.uint16base16, proxy.i32toa, uuid.ToString) is either discharged by a checker rule (slice bounds from Index*/LastIndex* under a dominating >= 0 test, Split indices under length facts) or matches an entry of a reviewed residual table keyed by (function, indexed object) with its reason; anything else is reported — so a new unguarded index on the logging path cannot appear silently; the logging path contains no explicit panic, type assertion other than on the pool, integer division by a computed value or map write; (U1) every calendar accessor (Year..Second, Nanosecond, Month, Day) feeding a field that prints a fixed UTC suffix is applied to a value derived from time.Time.UTC() — in the renderer or where the event handed to the renderers is built; (F1) every field named in the package documentation is a key of the fields table and both named formats use only known fields or $header.*; (O1) ServeHTTP calls Logger.Log at most once per path, after the inner handler returned, with Request/Response/RequestURL/UpstreamURL set and UpstreamAddr taken from the target URL's host; (I1) nothing in package logger can reach the response writer (no parameter, field or result of type http.ResponseWriter); (B1) the pooled buffer goes Get -> Reset -> write -> Put and the shared writer is used under the logger's mutex. (E1) no renderer writes a decoded URL component (url.URL.Path/Fragment) into the line; (N1) no negation of a signed value of at most 32 bits in its own width (wrong for the minimum); Not decided: agreement of atoi, i32toa, uint16base16, uuid.ToString and the time renderers with strconv/fmt/time on every value (numeric/string equality over value domains).",
+		Explain: "Access-logging safety and structure: (P*) every bounds check the Go compiler's prove pass cannot eliminate in the access logger (package logger: everything reachable from the implementations of the Logger interface, the functions returning a Logger and the package initialisers - not the levelled writer) and in the request-path value formatters of packages proxy and uuid (functions from integers / byte arrays to string or []byte, e.g. uint16base16, i32toa, uuid.ToString, and their helpers) must be PROVED by the checker: an interval analysis of the SSA form (constants, arithmetic, masks and shifts, branch conditions dominating the use, loop counters with delayed widening and narrowing, digit loops q = q/k bounded by log_k, parameters from the constant arguments at all call sites, captured variables from the values stored in their cells, callee results, lengths of arrays / constant strings / make / package-level slices that are only assigned values of known length, contents of constant tables, time.Time.Month() in 1..12, strings.Index* in -1..len-1, symbolic bounds n <= len(s) from conditions and callee summaries), or by the Index-bound rule (slice bounds from Index*/LastIndex* under a dominating >= 0 test); the single reviewed residual (the header name sliced out of a lexer token under the token-type test) is recognised by structure; anything else is reported - so a new unguarded index on the logging path, a scratch buffer that became too small, a table that lost an entry or a pad width that outgrew the buffer cannot appear silently; the logging path contains no explicit panic, no type assertion other than on the pool whose New returns that type, no integer division whose divisor is not proved non-zero (from the constants at the call sites or a dominating test); (U1) every calendar accessor (Year..Second, Nanosecond, Month, Day) feeding a field that prints a fixed UTC suffix is applied to a value derived from time.Time.UTC() - in the renderer, or because every event dispatched to the renderers is a copy whose Start/End were assigned from UTC() (in the Logger implementation, a helper of it, or at every caller of Logger.Log); (F1) every field named in the package documentation is a key of the table of renderers (any map of functions taking an *Event) and both named formats use only known fields or $header.*; (O1) ServeHTTP (or the helpers it calls) calls Logger.Log exactly once per path, after the inner handler returned, with Request/Response/RequestURL/UpstreamURL set to non-nil values and UpstreamAddr taken from the target URL's host; (I1) nothing in package logger can reach the response writer (no parameter, field or result of type http.ResponseWriter); (B1) in the Logger implementation that uses the pool the buffer goes Get -> Reset (before any other use) -> write to the shared writer -> Put (also deferred), in that order on every path and across helpers, is not used after Put, and every use of the shared writer happens under a mutex. (E1) nothing hands a decoded URL component (url.URL.Path/Fragment) to the line buffer; (N1) no negation of a signed value of at most 32 bits in its own width (wrong for the minimum); Not decided: agreement of atoi, i32toa, uint16base16, uuid.ToString and the time renderers with strconv/fmt/time on every value (numeric/string equality over value domains).",
 		Run:     runC20,
-		Trusted: []string{"soundness of the compiler's prove pass", "time.Time.Month() is in 1..12; time.Time accessors of a UTC time describe UTC", "the residual table in checker/c20.go (reviewed, one reason per entry)"},
+		Trusted: []string{"soundness of the compiler's prove pass", "the checker's interval analysis (checker/c20_prove.go): over-approximating, wrap-around gives the whole type", "time.Time.Month() is in 1..12 (Day 1..31, Hour 0..23, ...); strings.Index* return -1..len(s)-1; time.Time accessors of a UTC time describe UTC", "one reviewed residual, recognised by structure: the header name sliced from a lexer token under the token-type test (c20TokenResidual)", "test files are not loaded: a call site in a _test.go file does not widen a parameter's range"},
 		Mutants: []mutant{
 			{Name: "request url rendered from the decoded path", File: "logger/pattern.go", Old: "\t\tb.WriteString(e.RequestURL.String())\n", New: "\t\tb.WriteString(e.RequestURL.Scheme + \"://\" + e.RequestURL.Host + e.RequestURL.Path)\n", Expect: "C20.E1"},
 			{Name: "i32toa negates in 32 bits", File: "proxy/http_headers.go", Old: "\ti := int64(n)\n\tsigned := i < 0\n\tif signed {\n\t\ti = -i\n\t}", New: "\tsigned := n < 0\n\tif signed {\n\t\tn = -n\n\t}\n\ti := int64(n)", Expect: "C20.N1"},
@@ -32,23 +33,76 @@ func init() {
 			{Name: "writer used outside the mutex", File: "logger/logger.go", Old: "\tl.mu.Lock()\n\tl.w.Write(b.Bytes())\n\tl.mu.Unlock()", New: "\tl.w.Write(b.Bytes())", Expect: "C20.B1"},
 			{Name: "buffer used after Put", File: "logger/logger.go", Old: "\tl.mu.Lock()\n\tl.w.Write(b.Bytes())\n\tl.mu.Unlock()\n\tpool.Put(b)", New: "\tpool.Put(b)\n\tl.mu.Lock()\n\tl.w.Write(b.Bytes())\n\tl.mu.Unlock()", Expect: "C20.B1"},
 			{Name: "benign: sorted field list via a helper", File: "logger/pattern.go", Old: "\tsort.Strings(Fields)\n", New: "\tsort.Sort(sort.StringSlice(Fields))\n", Expect: ""},
+
+			// ---- breaks the bounds prover must report (none of them was visible to the former per-function table) ----
+			{Name: "atoi scratch too small for 19 digits, padding and sign", File: "logger/pattern.go", Old: "var d [128]byte", New: "var d [16]byte", Expect: "C20.P3"},
+			{Name: "a renderer pads wider than the scratch", File: "logger/pattern.go", Old: "\t\tatoi(b, int64(e.End.Nanosecond()), 9)\n", New: "\t\tatoi(b, int64(e.End.Nanosecond()), 200)\n", Expect: "C20.P3"},
+			{Name: "division by a value that may be zero", File: "logger/pattern.go", Old: "d%int64(time.Second)/int64(time.Millisecond)", New: "d%int64(time.Second)/int64(e.Response.StatusCode)", Expect: "C20.P3"},
+			{Name: "month table lost an entry", File: "logger/pattern.go", Old: "\t\"Dec\",\n", New: "", Expect: "C20.P3"},
+			{Name: "hex digit table too short", File: "proxy/http_headers.go", Old: "[]byte(\"0123456789abcdef\")", New: "[]byte(\"0123456789abcde\")", Expect: "C20.P3"},
+			{Name: "i32toa buffer too small", File: "proxy/http_headers.go", Old: "buf := [11]byte{}", New: "buf := [10]byte{}", Expect: "C20.P3"},
+			{Name: "uuid buffer too small", File: "uuid/format.go", Old: "b := [36]byte{}", New: "b := [35]byte{}", Expect: "C20.P3"},
+			{Name: "lexer may return more than it was given", File: "logger/pattern.go", Old: "\tcase stateField:\n\t\treturn itemField, len(s)\n", New: "\tcase stateField:\n\t\treturn itemField, len(s) + 1\n", Expect: "C20.P3"},
+			{Name: "header name sliced beyond the matched prefix", File: "logger/pattern.go", Old: "val[len(\"$header.\"):]", New: "val[len(\"$header.\")+2:]", Expect: "C20.P3"},
+			{Name: "pool.New returns another type than the one asserted", File: "logger/logger.go", Old: "\t\treturn bytes.NewBuffer(make([]byte, 0, bufSize))\n", New: "\t\treturn make([]byte, 0, bufSize)\n", Expect: "C20.P5"},
+			{Name: "un-normalised event handed to the renderers", File: "logger/logger.go", Old: "\tl.p.write(b, &ev)\n", New: "\tl.p.write(b, e)\n", Expect: "C20.U1"},
+			{Name: "buffer rendered before it is reset", File: "logger/logger.go", Old: "\tb.Reset()\n\tl.p.write(b, &ev)\n", New: "\tl.p.write(b, &ev)\n\tb.Reset()\n", Expect: "C20.B1"},
+			{Name: "decoded path written through fmt.Fprint", File: "logger/pattern.go", Old: "\t\tb.WriteString(e.RequestURL.RawQuery)\n", New: "\t\tfmt.Fprint(b, e.RequestURL.Path)\n", Expect: "C20.E1"},
+			{Name: "helper that logs is called twice", File: "proxy/http_proxy.go",
+				Old: "\t// write access log\n\tif p.Logger != nil {\n\t\tp.Logger.Log(&logger.Event{\n\t\t\tStart:   start,\n\t\t\tEnd:     end,\n\t\t\tRequest: r,\n\t\t\tResponse: &http.Response{\n\t\t\t\tStatusCode:    rw.code,\n\t\t\t\tContentLength: int64(rw.size),\n\t\t\t},\n\t\t\tRequestURL:      requestURL,\n\t\t\tUpstreamAddr:    targetURL.Host,\n\t\t\tUpstreamService: t.Service,\n\t\t\tUpstreamURL:     targetURL,\n\t\t})\n\t}\n}\n",
+				New: "\tp.accessLog(start, end, r, rw.code, rw.size, requestURL, targetURL, t.Service)\n\tif rw.code >= 500 {\n\t\tp.accessLog(start, end, r, rw.code, rw.size, requestURL, targetURL, t.Service)\n\t}\n}\n\nfunc (p *HTTPProxy) accessLog(start, end time.Time, r *http.Request, code, size int, requestURL, targetURL *url.URL, service string) {\n\tif p.Logger == nil {\n\t\treturn\n\t}\n\tp.Logger.Log(&logger.Event{\n\t\tStart:           start,\n\t\tEnd:             end,\n\t\tRequest:         r,\n\t\tResponse:        &http.Response{StatusCode: code, ContentLength: int64(size)},\n\t\tRequestURL:      requestURL,\n\t\tUpstreamAddr:    targetURL.Host,\n\t\tUpstreamService: service,\n\t\tUpstreamURL:     targetURL,\n\t})\n}\n", Expect: "C20.O1"},
+
+			// ---- behaviour-preserving rewrites that must stay silent ----
+			{Name: "benign: atoi and its scratch renamed", File: "logger/pattern.go", All: true, Old: "atoi(", New: "formatInt(", Expect: "",
+				More: []repl{{"\tvar d [128]byte\n\tn, p := len(d), len(d)-1\n", "\tvar scratch [128]byte\n\tn, p := len(scratch), len(scratch)-1\n"}, {"\t\td[p] = byte('0') + byte(i%10)\n", "\t\tscratch[p] = byte('0') + byte(i%10)\n"}, {"\t\td[p] = byte('0')\n", "\t\tscratch[p] = byte('0')\n"}, {"\t\td[p] = '-'\n", "\t\tscratch[p] = '-'\n"}, {"\tb.Write(d[p+1:])\n", "\tb.Write(scratch[p+1:])\n"}}},
+			{Name: "benign: scratch made with make", File: "logger/pattern.go", Old: "\tvar d [128]byte\n", New: "\td := make([]byte, 128)\n", Expect: ""},
+			{Name: "benign: digit loop of atoi extracted into a helper", File: "logger/pattern.go",
+				Old:    "\tfor i >= 0 {\n\t\td[p] = byte('0') + byte(i%10)\n\t\ti /= 10\n\t\tp--\n\t\tif i == 0 {\n\t\t\tbreak\n\t\t}\n\t}\n",
+				New:    "\tp = digits(&d, i, p)\n",
+				More:   []repl{{"// parse parses a format string into a pattern", "func digits(d *[128]byte, i int64, p int) int {\n\tfor i >= 0 {\n\t\td[p] = byte('0') + byte(i%10)\n\t\ti /= 10\n\t\tp--\n\t\tif i == 0 {\n\t\t\tbreak\n\t\t}\n\t}\n\treturn p\n}\n\n// parse parses a format string into a pattern"}},
+				Expect: ""},
+			{Name: "benign: hostport tests n == -1", File: "logger/pattern.go", Old: "\tif n < 0 {\n\t\t// no port, e.g. a target url without one\n\t\treturn s, \"\"\n\t}\n", New: "\tif n == -1 {\n\t\treturn s, \"\"\n\t}\n", Expect: ""},
+			{Name: "benign: month table as an array", File: "logger/pattern.go", Old: "var shortMonthNames = []string{", New: "var shortMonthNames = [...]string{", Expect: ""},
+			{Name: "benign: UTC normalisation in a helper that takes the copy's address", File: "logger/logger.go", Old: "\tev.Start, ev.End = e.Start.UTC(), e.End.UTC()\n", New: "\ttoUTC(&ev)\n",
+				More: []repl{{"// Log writes a log line", "func toUTC(ev *Event) {\n\tev.Start, ev.End = ev.Start.UTC(), ev.End.UTC()\n}\n\n// Log writes a log line"}}, Expect: ""},
+			{Name: "benign: deferred Put and deferred Unlock", File: "logger/logger.go",
+				Old:    "\tb := pool.Get().(*bytes.Buffer)\n\tb.Reset()\n\tl.p.write(b, &ev)\n\tl.mu.Lock()\n\tl.w.Write(b.Bytes())\n\tl.mu.Unlock()\n\tpool.Put(b)\n",
+				New:    "\tb := pool.Get().(*bytes.Buffer)\n\tdefer pool.Put(b)\n\tb.Reset()\n\tl.p.write(b, &ev)\n\tl.mu.Lock()\n\tdefer l.mu.Unlock()\n\tl.w.Write(b.Bytes())\n",
+				Expect: ""},
+			{Name: "benign: Truncate(0) and WriteTo instead of Reset and Write(Bytes())", File: "logger/logger.go", Old: "\tb.Reset()\n", New: "\tb.Truncate(0)\n", More: []repl{{"\tl.w.Write(b.Bytes())\n", "\tb.WriteTo(l.w)\n"}}, Expect: ""},
+			{Name: "benign: pool.New is a named function", File: "logger/logger.go", Old: "var pool = sync.Pool{\n\tNew: func() interface{} {\n\t\treturn bytes.NewBuffer(make([]byte, 0, bufSize))\n\t},\n}", New: "var pool = sync.Pool{New: newBuffer}\n\nfunc newBuffer() interface{} {\n\treturn bytes.NewBuffer(make([]byte, 0, bufSize))\n}", Expect: ""},
+			{Name: "benign: a date helper shared by a time renderer", File: "logger/pattern.go",
+				Old:    "\t\tatoi(b, int64(e.End.Year()), 4)\n\t\tb.WriteRune('-')\n\t\tatoi(b, int64(e.End.Month()), 2)\n\t\tb.WriteRune('-')\n\t\tatoi(b, int64(e.End.Day()), 2)\n\t\tb.WriteRune('T')\n",
+				New:    "\t\twriteDate(b, e.End)\n\t\tb.WriteRune('T')\n",
+				More:   []repl{{"var shortMonthNames = ", "func writeDate(b *bytes.Buffer, t time.Time) {\n\tatoi(b, int64(t.Year()), 4)\n\tb.WriteRune('-')\n\tatoi(b, int64(t.Month()), 2)\n\tb.WriteRune('-')\n\tatoi(b, int64(t.Day()), 2)\n}\n\nvar shortMonthNames = "}},
+				Expect: ""},
+			{Name: "benign: lexer renamed, token and rest kept in locals", File: "logger/pattern.go",
+				Old:    "\t\ttyp, n := lex(s)\n\t\tval := string(s[:n])\n\t\ts = s[n:]\n",
+				New:    "\t\tkind, width := scan(s)\n\t\ttok, rest := s[:width], s[width:]\n\t\tval := string(tok)\n\t\ts = rest\n\t\ttyp := kind\n",
+				More:   []repl{{"func lex(s []rune) (typ itemType, n int) {", "func scan(s []rune) (typ itemType, n int) {"}},
+				Expect: ""},
+			{Name: "benign: a renderer writes through a string helper", File: "logger/pattern.go", Old: "\t\tb.WriteString(e.Request.RemoteAddr)\n", New: "\t\twriteStr(b, e.Request.RemoteAddr)\n",
+				More: []repl{{"var shortMonthNames = ", "func writeStr(b *bytes.Buffer, s string) { b.WriteString(s) }\n\nvar shortMonthNames = "}}, Expect: ""},
+			{Name: "benign: access log written by a helper method of the proxy", File: "proxy/http_proxy.go",
+				Old:    "\t// write access log\n\tif p.Logger != nil {\n\t\tp.Logger.Log(&logger.Event{\n\t\t\tStart:   start,\n\t\t\tEnd:     end,\n\t\t\tRequest: r,\n\t\t\tResponse: &http.Response{\n\t\t\t\tStatusCode:    rw.code,\n\t\t\t\tContentLength: int64(rw.size),\n\t\t\t},\n\t\t\tRequestURL:      requestURL,\n\t\t\tUpstreamAddr:    targetURL.Host,\n\t\t\tUpstreamService: t.Service,\n\t\t\tUpstreamURL:     targetURL,\n\t\t})\n\t}\n}\n",
+				New:    "\tp.accessLog(start, end, r, rw.code, rw.size, requestURL, targetURL, t.Service)\n}\n\nfunc (p *HTTPProxy) accessLog(start, end time.Time, r *http.Request, code, size int, requestURL, targetURL *url.URL, service string) {\n\tif p.Logger == nil {\n\t\treturn\n\t}\n\taddr := targetURL.Host\n\tp.Logger.Log(&logger.Event{\n\t\tStart:           start,\n\t\tEnd:             end,\n\t\tRequest:         r,\n\t\tResponse:        &http.Response{StatusCode: code, ContentLength: int64(size)},\n\t\tRequestURL:      requestURL,\n\t\tUpstreamAddr:    addr,\n\t\tUpstreamService: service,\n\t\tUpstreamURL:     targetURL,\n\t})\n}\n",
+				Expect: ""},
+			{Name: "benign: the colon index comes through a helper", File: "logger/pattern.go", Old: "\tn := strings.LastIndexByte(s, ':')\n", New: "\tn := lastColon(s)\n",
+				More: []repl{{"// atoi is a replacement", "func lastColon(s string) int { return strings.LastIndexByte(s, ':') }\n\n// atoi is a replacement"}}, Expect: ""},
+			{Name: "benign: token cut and header name sliced by helpers, loop on len(s) > 0, index-based lexer loop", File: "logger/pattern.go",
+				Old: "\t\tval := string(s[:n])\n\t\ts = s[n:]\n",
+				New: "\t\ttok, rest := cut(s, n)\n\t\tval := string(tok)\n\t\ts = rest\n",
+				More: []repl{{"type itemType int", "func cut(s []rune, n int) (head, tail []rune) {\n\treturn s[:n], s[n:]\n}\n\nfunc headerName(tok string) string {\n\treturn tok[len(\"$header.\"):]\n}\n\ntype itemType int"},
+					{"\t\t\tp = append(p, header(val[len(\"$header.\"):]))", "\t\t\tp = append(p, header(headerName(val)))"},
+					{"\tfor {\n\t\tif len(s) == 0 {\n\t\t\tbreak\n\t\t}\n\t\ttyp, n := lex(s)", "\tfor len(s) > 0 {\n\t\ttyp, n := lex(s)"},
+					{"\tfor i, r := range s {\n\t\tswitch state {", "\tfor i := 0; i < len(s); i++ {\n\t\tr := s[i]\n\t\tswitch state {"}},
+				Expect: ""},
+			{Name: "benign: month abbreviation cut from Month().String()", File: "logger/pattern.go", Old: "b.WriteString(shortMonthNames[e.End.Month()])", New: "b.WriteString(e.End.Month().String()[:3])", Expect: ""},
+			{Name: "benign: the pool is a field of the logger, New set in the constructor", File: "logger/logger.go", Old: "\treturn &logger{p: p, w: w}, nil\n", New: "\tl := &logger{p: p, w: w}\n\tl.bufs.New = func() interface{} {\n\t\treturn bytes.NewBuffer(make([]byte, 0, bufSize))\n\t}\n\treturn l, nil\n",
+				More: []repl{{"\tmu sync.Mutex\n\tw  io.Writer\n}", "\tmu sync.Mutex\n\tw  io.Writer\n\n\tbufs sync.Pool\n}"}, {"\tb := pool.Get().(*bytes.Buffer)\n", "\tb := l.bufs.Get().(*bytes.Buffer)\n"}, {"\tpool.Put(b)\n", "\tl.bufs.Put(b)\n"}}, Expect: ""},
+			{Name: "benign: i32toa counts down from a constant and names the digit", File: "proxy/http_headers.go", Old: "\tpos := len(buf)\n", New: "\tpos := 11\n", More: []repl{{"\t\tbuf[pos], i = '0'+byte(i%10), i/10\n", "\t\tdigit := byte(i % 10)\n\t\tbuf[pos] = '0' + digit\n\t\ti = i / 10\n"}}, Expect: ""},
 		},
 	})
-}
-
-// Residual table: unproved bounds checks that are accepted with a reviewed reason.
-// Key: function (or enclosing function for closures) + "|" + indexed object.
-var c20Residual = map[string]string{
-	"logger.atoi|d":                  "d is a [128]byte scratch; at most 20 digits + pad (<= 9) + sign are written from the end, p stays in [97,127]",
-	"logger.init|shortMonthNames":    "index is time.Time.Month(), in 1..12 by the time package's contract; the table has 13 entries",
-	"logger.parse|s":                 "n is the item length returned by lex, 0 < n <= len(s) by construction of lex",
-	"logger.parse|val":               "val starts with \"$header.\" whenever lex returns itemHeader (state machine), so len(val) >= len(\"$header.\")",
-	"logger.lex|s":                   "s[:i] with i the index of the rune being ranged over",
-	"proxy.uint16base16|digit16":     "index is a 4-bit value (n & mask >> shift), digit16 has 16 entries",
-	"proxy.uint16base16|b":           "b is the 6-byte literal \"0x0000\"; constant indices 2..5",
-	"proxy.i32toa|buf":               "buf is [11]byte; an int32 has at most 10 digits + sign, pos counts down from 11",
-	"uuid.ToString|halfbyte2hexchar": "index is a 4-bit value ((x >> 4) & 0x0f or x & 0x0f), the table has 16 entries",
-	"uuid.ToString|b":                "b is [36]byte; n ranges over the constant offset table {0,...,34}, so n and n+1 are <= 35",
 }
 
 type astIndexSite struct {
@@ -58,8 +112,6 @@ type astIndexSite struct {
 	fn   string
 	col  int // column of the opening bracket (what the compiler reports)
 }
-
-var identRe = regexp.MustCompile(`^[A-Za-z_][A-Za-z0-9_]*`)
 
 func baseName(e ast.Expr) string {
 	switch x := e.(type) {
@@ -82,7 +134,7 @@ func baseName(e ast.Expr) string {
 }
 
 // indexSites collects index/slice expressions per file line for the given package, tagged with the
-// enclosing top-level function ("init" for package-level variable initialisers).
+// enclosing top-level function ("init" for package-level variable initialisers). Only used to name the obligations.
 func indexSites(pp *packages.Package) map[string]map[int][]astIndexSite {
 	out := map[string]map[int][]astIndexSite{}
 	add := func(fn string, n ast.Node, fset *token.FileSet) {
@@ -128,52 +180,327 @@ func runC20(c *Ctx) {
 	runC20B1(c)
 	runC20E1(c)
 	runC20N1(c)
+	if pre := os.Getenv("C20_OBS"); pre != "" {
+		for _, o := range c.Obs {
+			if strings.HasPrefix(o.Rule, pre) {
+				fmt.Fprintf(os.Stderr, "C20OBS %s %s [%s] %s: %s\n", o.Status, o.Rule, o.Construct, o.Pos, o.Detail)
+			}
+		}
+	}
 }
 
+// c20LoggerScope: the access logger, found by role: everything in package logger that is reachable (statically, through
+// closures and function values) from the implementations of the exported Logger interface, from the functions that
+// return a Logger, and from the package initialisers (which build the table of field renderers). The levelled writer
+// for the standard library's log package lives in the same package and is not part of it. Independent of file and
+// function names.
+func c20LoggerScope(c *Ctx) (map[*ssa.Function]bool, []*ssa.Function) {
+	sp := c.spkg("logger")
+	if sp == nil {
+		return nil, nil
+	}
+	var iface *types.Interface
+	var ifaceT types.Type
+	if t := sp.Type("Logger"); t != nil {
+		iface, _ = t.Type().Underlying().(*types.Interface)
+		ifaceT = t.Type()
+	}
+	var roots, logs []*ssa.Function
+	if f := sp.Func("init"); f != nil {
+		roots = append(roots, f) // the synthetic initialiser: package-level variables (the table of renderers)
+	}
+	for _, f := range c.AllFns {
+		if rootPkg(f) != sp || f.Parent() != nil {
+			continue
+		}
+		switch {
+		case isInitFn(f):
+			roots = append(roots, f)
+		case iface == nil:
+			roots = append(roots, f)
+		case f.Signature.Recv() != nil:
+			if iface.NumMethods() > 0 && types.Implements(f.Signature.Recv().Type(), iface) {
+				for k := 0; k < iface.NumMethods(); k++ {
+					if iface.Method(k).Name() == f.Name() {
+						roots = append(roots, f)
+						logs = append(logs, f)
+					}
+				}
+			}
+		default:
+			res := f.Signature.Results()
+			for k := 0; k < res.Len(); k++ {
+				if types.Identical(res.At(k).Type(), ifaceT) {
+					roots = append(roots, f)
+				}
+			}
+		}
+	}
+	scope := map[*ssa.Function]bool{}
+	for _, f := range c.regionDepth(10, roots...) {
+		scope[f] = true
+	}
+	return scope, logs
+}
+
+// c20Formatters: the hand-written value formatters of a package, by role: package-level functions that take only
+// integers / byte arrays (and possibly a destination []byte) and return a string or []byte, plus the helpers they call.
+func c20Formatters(c *Ctx, pkg string) map[*ssa.Function]bool {
+	sp := c.spkg(pkg)
+	if sp == nil {
+		return nil
+	}
+	isBytes := func(t types.Type, array bool) bool {
+		var e types.Type
+		switch u := t.Underlying().(type) {
+		case *types.Array:
+			if !array {
+				return false
+			}
+			e = u.Elem()
+		case *types.Slice:
+			if array {
+				return false
+			}
+			e = u.Elem()
+		default:
+			return false
+		}
+		b, ok := e.Underlying().(*types.Basic)
+		return ok && b.Kind() == types.Uint8
+	}
+	var roots []*ssa.Function
+	for _, f := range c.AllFns {
+		if rootPkg(f) != sp || f.Parent() != nil || f.Signature.Recv() != nil || isInitFn(f) {
+			continue
+		}
+		sig := f.Signature
+		if sig.Results().Len() != 1 || sig.Params().Len() == 0 || sig.Variadic() {
+			continue
+		}
+		rt := sig.Results().At(0).Type()
+		if b, ok := rt.Underlying().(*types.Basic); !(ok && b.Info()&types.IsString != 0) && !isBytes(rt, false) {
+			continue
+		}
+		values, ok := 0, true
+		for k := 0; k < sig.Params().Len(); k++ {
+			pt := sig.Params().At(k).Type()
+			switch {
+			case isIntType(pt), isBytes(pt, true):
+				values++
+			case isBytes(pt, false):
+			default:
+				ok = false
+			}
+		}
+		if ok && values > 0 {
+			roots = append(roots, f)
+		}
+	}
+	scope := map[*ssa.Function]bool{}
+	for _, f := range c.regionDepth(6, roots...) {
+		scope[f] = true
+	}
+	return scope
+}
+
+// c20TokenResidual: the one reviewed residual that is not proved: the text of a lexer token sliced at a constant
+// offset under a test of the token's type. Recognised by structure, not by names: the slice is dominated by a
+// condition `typ == const` where typ is one result of a call of a repository function (the lexer; the conditions at
+// the single call site of a helper count), the sliced string is cut from the very input that call was given, and the
+// offset is at most one more than the longest string constant the lexer compares its input with (its state machine
+// only yields that type after matching the constant and one more character).
+func c20TokenResidual(sl *ssa.Slice) (bool, string) {
+	if sl.High != nil || sl.Max != nil || sl.Low == nil {
+		return false, ""
+	}
+	k, isK := constInt(sl.Low)
+	if !isK || k <= 0 {
+		return false, ""
+	}
+	if b, ok := sl.X.Type().Underlying().(*types.Basic); !ok || b.Info()&types.IsString == 0 {
+		return false, ""
+	}
+	for _, f := range factsAt(sl.Block()) { // includes the conditions at the single call site of a helper
+		cmp, ok := f.Cond.(*ssa.BinOp)
+		if !ok || cmp.Op != token.EQL || !f.Truth {
+			continue
+		}
+		ex, ok := cmp.X.(*ssa.Extract)
+		if !ok {
+			continue
+		}
+		if _, isConst := cmp.Y.(*ssa.Const); !isConst {
+			continue
+		}
+		call, ok := ex.Tuple.(*ssa.Call)
+		if !ok || len(call.Call.Args) == 0 {
+			continue
+		}
+		sc := call.Call.StaticCallee()
+		if sc == nil || !isRepoFn(sc) || len(sc.Blocks) == 0 {
+			continue
+		}
+		input := call.Call.Args[0]
+		if !derives(sl.X, func(v ssa.Value) bool { return v == input }) {
+			continue
+		}
+		longest := ""
+		for _, g := range withAnon(sc) {
+			eachInstr(g, func(i ssa.Instruction) {
+				c2, ok := i.(*ssa.BinOp)
+				if !ok || c2.Op != token.EQL {
+					return
+				}
+				for _, o := range []ssa.Value{c2.X, c2.Y} {
+					if s, ok := constString(o); ok && len(s) > len(longest) {
+						longest = s
+					}
+				}
+			})
+		}
+		if longest == "" || k > int64(len(longest))+1 {
+			continue
+		}
+		return true, "reviewed residual: the token text is sliced at offset " + itoa(int(k)) + " under a test of the token type returned by " + fnKey(sc) + ", whose state machine yields that type only after matching " + strconvQuote(longest) + " and at least one more character"
+	}
+	return false, ""
+}
+
+func strconvQuote(s string) string { return "\"" + s + "\"" }
+
 func runC20P(c *Ctx) {
+	logScope, _ := c20LoggerScope(c)
+	if len(logScope) == 0 {
+		c.undecided("C20.P3", "anchor|access logger", "package logger / its Logger implementations do not resolve")
+		return
+	}
 	type scope struct {
-		pkg   string
-		files map[string]bool // base names; empty = all
-		funcs map[string]bool // function names; empty = all in files
+		pkg string
+		fns map[*ssa.Function]bool
 	}
-	scopes := []scope{
-		{"logger", map[string]bool{"logger.go": true, "pattern.go": true}, nil},
-		{"proxy", map[string]bool{"http_headers.go": true}, map[string]bool{"uint16base16": true, "i32toa": true}},
-		{"uuid", nil, map[string]bool{"ToString": true}},
+	scopes := []scope{{"logger", logScope}}
+	nFmt := 0
+	for _, pkg := range []string{"proxy", "uuid"} {
+		fs := c20Formatters(c, pkg)
+		nFmt += len(fs)
+		scopes = append(scopes, scope{pkg, fs})
 	}
+	c.atLeast("C20.P3", "hand-written value formatters on the request path (packages proxy, uuid)", nFmt, 1)
+	if os.Getenv("C20_STRESS") != "" {
+		sp := newC20Prover(c)
+		nOK, nAll := 0, 0
+		for _, f := range sp.allFns() {
+			eachInstr(f, func(i ssa.Instruction) {
+				switch x := i.(type) {
+				case *ssa.IndexAddr, *ssa.Slice, *ssa.Index:
+					nAll++
+					if ok, why := sp.proveBounds(i); ok {
+						nOK++
+						trivial := false
+						switch y := i.(type) {
+						case *ssa.IndexAddr:
+							_, trivial = y.Index.(*ssa.Const)
+						case *ssa.Slice:
+							trivial = y.Low == nil && y.High == nil
+						}
+						if !trivial && os.Getenv("C20_STRESS") == "v" {
+							fmt.Fprintf(os.Stderr, "C20PROVED %s %s: %s\n", c.pos(i.Pos()), f, why)
+						}
+					}
+				case *ssa.BinOp:
+					if (x.Op == token.QUO || x.Op == token.REM) && isIntType(x.X.Type()) {
+						sp.nonZero(x.Y, x.Block())
+					}
+				}
+			})
+		}
+		fmt.Fprintf(os.Stderr, "C20STRESS %d of %d index/slice expressions of the repository proved\n", nOK, nAll)
+	}
+	if os.Getenv("C20_OBS") == "scope" {
+		for _, sc := range scopes {
+			for f := range sc.fns {
+				fmt.Fprintf(os.Stderr, "C20SCOPE %s %s\n", sc.pkg, f)
+			}
+		}
+	}
+
 	var overlay map[string][]byte
 	if c.Tier == "mutant" {
 		overlay = currentOverlay
 	}
 	// first run the SSA-level P1/P2 rules over the logging path to know which sites they discharge
 	p2ok := map[string]bool{} // file:line of slices discharged by the Index-family rule
-	logScope := map[*ssa.Function]bool{}
-	for _, f := range c.AllFns {
-		if rootPkg(f) == c.spkg("logger") {
-			logScope[f] = true
-		}
-	}
 	tmp := &Ctx{Dir: c.Dir, Pkgs: c.Pkgs, Fset: c.Fset, Prog: c.Prog, spkgs: c.spkgs, ppkgs: c.ppkgs, AllFns: c.AllFns, cg: c.cg}
 	nP := runPartialOps(tmp, "C20.P2", logScope)
+	pr := newC20Prover(c)
+	// The Index-bound rule wants the >= 0 test on the very result of strings.Index*; when the index comes through a
+	// helper (i := lastColon(s); if i < 0 ...) it does not see the test. Such a report is withdrawn only if the
+	// interval analysis proves every slice expression at that place in bounds.
+	slicesAt := map[string][]*ssa.Slice{}
+	for f := range logScope {
+		eachInstr(f, func(i ssa.Instruction) {
+			if sl, ok := i.(*ssa.Slice); ok && sl.Pos().IsValid() {
+				slicesAt[c.pos(sl.Pos())] = append(slicesAt[c.pos(sl.Pos())], sl)
+			}
+		})
+	}
 	for _, o := range tmp.Obs {
+		if o.st == Viol && strings.Contains(o.Construct, "slice bound from") && len(slicesAt[o.Pos]) > 0 {
+			all := true
+			for _, sl := range slicesAt[o.Pos] {
+				if ok, _ := pr.proveBounds(sl); !ok {
+					all = false
+				}
+			}
+			if all {
+				o.st, o.Status = OK, OK.String()
+				o.Detail = "proved in bounds by the interval analysis (the index reaches the slice through a helper): " + o.Detail
+			}
+		}
 		if o.st == OK {
 			p2ok[o.Pos] = true
 		}
 		c.Obs = append(c.Obs, o)
 	}
-	c.atLeast("C20.P2", "Split/Index-derived indices on the logging path", nP, 1)
-
-	nRes := 0
+	nRes, nRaw := 0, 0
 	for _, sc := range scopes {
-		pp := c.ppkg(sc.pkg)
-		if pp == nil {
+		pp, sp := c.ppkg(sc.pkg), c.spkg(sc.pkg)
+		if pp == nil || sp == nil {
 			c.undecided("C20.P3", "anchor|package "+sc.pkg, "not loaded")
+			continue
+		}
+		if len(sc.fns) == 0 {
 			continue
 		}
 		reps, err := compilerBCE(c.Dir, sc.pkg, overlay)
 		if err != nil {
 			c.undecided("C20.P3", "anchor|compiler bounds report for "+sc.pkg, err.Error())
 			continue
+		}
+		nRaw += len(reps)
+		// SSA instructions of the package by the position of their opening bracket
+		type posKey struct {
+			file      string
+			line, col int
+		}
+		byPos := map[posKey][]ssa.Instruction{}
+		var pkgFns []*ssa.Function
+		for _, f := range c.AllFns {
+			if rootPkg(f) != sp {
+				continue
+			}
+			pkgFns = append(pkgFns, f)
+			eachInstr(f, func(i ssa.Instruction) {
+				switch i.(type) {
+				case *ssa.IndexAddr, *ssa.Index, *ssa.Slice, *ssa.Lookup:
+					if i.Pos().IsValid() {
+						ps := c.Fset.Position(i.Pos())
+						k := posKey{ps.Filename, ps.Line, ps.Column}
+						byPos[k] = append(byPos[k], i)
+					}
+				}
+			})
 		}
 		sites := indexSites(pp)
 		for _, r := range reps {
@@ -182,54 +509,114 @@ func runC20P(c *Ctx) {
 				file = c.Dir + "/" + file
 			}
 			bn := file[strings.LastIndex(file, "/")+1:]
-			if sc.files != nil && !sc.files[bn] {
-				continue
+			instrs := byPos[posKey{file, r.line, r.col}]
+			if len(instrs) == 0 {
+				// the compiler's column is not a bracket the SSA form records: take the line's only candidate, if there is just one
+				var onLine []ssa.Instruction
+				for k, is := range byPos {
+					if k.file == file && k.line == r.line {
+						onLine = append(onLine, is...)
+					}
+				}
+				if len(onLine) == 1 {
+					instrs = onLine
+				}
 			}
-			cands := sites[file][r.line]
-			var exact []astIndexSite
-			for _, s := range cands {
+			var site *astIndexSite
+			for k, s := range sites[file][r.line] {
 				if s.col == r.col {
-					exact = append(exact, s)
+					site = &sites[file][r.line][k]
 				}
 			}
-			if len(exact) > 0 {
-				cands = exact
+			inScope := false
+			var owner *ssa.Function
+			if len(instrs) > 0 {
+				for _, i := range instrs {
+					if sc.fns[i.Parent()] {
+						inScope, owner = true, i.Parent()
+					}
+				}
+			} else {
+				// no SSA instruction carries this position: decide by the source extent of the scope's functions
+				inAny := false
+				for _, f := range pkgFns {
+					n := f.Syntax()
+					if n == nil {
+						continue
+					}
+					a, b := c.Fset.Position(n.Pos()), c.Fset.Position(n.End())
+					if a.Filename == file && a.Line <= r.line && r.line <= b.Line {
+						inAny = true
+						if sc.fns[f] {
+							inScope, owner = true, f
+						}
+					}
+				}
+				if !inAny {
+					// a package-level initialiser: belongs to the package initialiser
+					for f := range sc.fns {
+						if isInitFn(f) && f.Parent() == nil && f.Synthetic != "" {
+							inScope, owner = true, f
+						}
+					}
+				}
 			}
-			if len(cands) == 0 {
-				c.undecided("C20.P3", sc.pkg+"|unproved bounds check at "+bn, "no index/slice expression found on the reported line")
+			if !inScope {
 				continue
 			}
-			for _, s := range cands {
-				if sc.funcs != nil && !sc.funcs[s.fn] {
-					continue
-				}
-				nRes++
-				key := sc.pkg + "." + s.fn + "|" + s.base
-				posStr := c.pos(s.node.Pos())
-				if p2ok[posStr] {
-					c.ob("C20.P3", key+" (discharged by the Index-bound rule)", s.node.Pos(), OK, "slice bound from an Index* result under a dominating >= 0 test")
-					continue
-				}
-				reason, ok := c20Residual[key]
-				c.check("C20.P3", key, s.node.Pos(), ok,
-					"the compiler cannot prove this "+s.kind+" expression in bounds and no reviewed reason covers ("+key+"): an out-of-range value here panics inside the request handler after the response has been sent; reviewed reason: "+reason)
+			nRes++
+			root := owner
+			for root.Parent() != nil {
+				root = root.Parent()
 			}
+			base, kind, pos := "?", "index", token.NoPos
+			if site != nil {
+				base, kind, pos = site.base, site.kind, site.node.Pos()
+			} else if len(instrs) > 0 {
+				pos = instrs[0].Pos()
+			}
+			key := sc.pkg + "." + root.Name() + "|" + base
+			if len(instrs) == 0 {
+				c.check("C20.P3", key, pos, false, "the compiler cannot prove a bounds check at "+bn+":"+itoa(r.line)+" in bounds and the checker finds no index/slice instruction there to reason about")
+				continue
+			}
+			if pos.IsValid() && p2ok[c.pos(pos)] {
+				c.ob("C20.P3", key+" (discharged by the Index-bound rule)", pos, OK, "slice bound from an Index* result under a dominating >= 0 test")
+				continue
+			}
+			okAll, why := true, ""
+			for _, i := range instrs {
+				if !sc.fns[i.Parent()] {
+					continue
+				}
+				ok, w := pr.proveBounds(i)
+				if !ok {
+					if sl, isSl := i.(*ssa.Slice); isSl {
+						ok, w = c20TokenResidual(sl)
+					}
+				}
+				if !ok {
+					okAll = false
+					_, w = pr.proveBounds(i)
+				}
+				why = w
+			}
+			c.check("C20.P3", key, pos, okAll,
+				"the compiler cannot prove this "+kind+" expression in bounds, so the checker must: "+why+". An out-of-range value here panics inside the request handler after the response has been sent")
 		}
 	}
-	c.atLeast("C20.P3", "compiler-unproved bounds checks on the logging/formatter path", nRes, 8)
+	c.atLeast("C20.P2", "Split/Index-derived indices and compiler-unproved bounds checks on the logging path", nP+nRes, 1)
+	c.atLeast("C20.P3", "bounds checks reported by the compiler for packages logger, proxy, uuid (is the report alive?)", nRaw, 1)
+	c.atLeast("C20.P3", "compiler-unproved bounds checks on the logging/formatter path", nRes, 1)
 
 	// other panic sources on the logging path
-	for f := range logScope {
-		if rootBase(c, f) == "level_writer.go" {
+	for _, f := range c.AllFns {
+		if !logScope[f] {
 			continue
 		}
 		eachInstr(f, func(i ssa.Instruction) {
 			switch x := i.(type) {
 			case *ssa.Panic:
-				// itemType.String panics on an invalid enum: only reachable from tests/diagnostics
-				if f.Name() == "String" {
-					return
-				}
 				c.check("C20.P7", fnKey(f)+"|explicit panic", x.Pos(), false, "explicit panic on the access-log path")
 			case *ssa.TypeAssert:
 				if x.CommaOk {
@@ -240,263 +627,18 @@ func runC20P(c *Ctx) {
 			case *ssa.BinOp:
 				if (x.Op == token.QUO || x.Op == token.REM) && isIntType(x.X.Type()) {
 					if _, isK := x.Y.(*ssa.Const); !isK {
-						ok, why := divisorNonZero(x)
-						c.check("C20.P3", fnKey(f)+"|integer division by "+shortPath(x.Y), x.Pos(), ok, why)
+						ok, why := pr.nonZero(x.Y, x.Block())
+						if !ok {
+							if ok2, _ := divisorNonZero(x); ok2 {
+								ok = true
+							}
+						}
+						c.check("C20.P3", fnKey(f)+"|integer division by "+shortPath(x.Y), x.Pos(), ok,
+							"an integer division on the logging path needs a divisor that cannot be zero (from the constants at the call sites or a dominating test): "+why)
 					}
 				}
 			}
 		})
-	}
-}
-
-func rootBase(c *Ctx, f *ssa.Function) string {
-	for f.Parent() != nil {
-		f = f.Parent()
-	}
-	p := c.Fset.Position(f.Pos()).Filename
-	return p[strings.LastIndex(p, "/")+1:]
-}
-
-// poolNewReturns: the sync.Pool the assertion reads from has a New function returning the asserted type.
-func poolNewReturns(c *Ctx, ta *ssa.TypeAssert) bool {
-	call, ok := ta.X.(*ssa.Call)
-	if !ok {
-		return false
-	}
-	g, ok := call.Call.Args[0].(*ssa.Global)
-	if !ok {
-		return false
-	}
-	initFn := g.Pkg.Func("init")
-	found := false
-	eachInstr(initFn, func(i ssa.Instruction) {
-		st, ok := i.(*ssa.Store)
-		if !ok {
-			return
-		}
-		fa, ok := st.Addr.(*ssa.FieldAddr)
-		if !ok || fa.X != g || fieldName(fa.X.Type(), fa.Field) != "New" {
-			return
-		}
-		var fn *ssa.Function
-		switch v := st.Val.(type) {
-		case *ssa.Function:
-			fn = v
-		case *ssa.MakeClosure:
-			fn = v.Fn.(*ssa.Function)
-		}
-		if fn == nil {
-			return
-		}
-		all := true
-		eachInstr(fn, func(j ssa.Instruction) {
-			if r, ok := j.(*ssa.Return); ok {
-				if !types.Identical(stripIface(r.Results[0]).Type(), ta.AssertedType) {
-					all = false
-				}
-			}
-		})
-		found = all
-	})
-	return found
-}
-
-var calendarAccessors = map[string]bool{
-	"(time.Time).Year": true, "(time.Time).Month": true, "(time.Time).Day": true, "(time.Time).Hour": true,
-	"(time.Time).Minute": true, "(time.Time).Second": true, "(time.Time).Nanosecond": true, "(time.Time).YearDay": true, "(time.Time).Weekday": true,
-	"(time.Time).Date": true, "(time.Time).Clock": true, "(time.Time).Format": true, "(time.Time).AppendFormat": true,
-}
-
-func runC20U1(c *Ctx) {
-	sp := c.spkg("logger")
-	logM := c.method("logger", "logger", "Log")
-	if sp == nil || !c.need("C20.U1", logM, "logger.logger.Log") {
-		return
-	}
-	isUTC := func(v ssa.Value) bool { _, ok := isCallTo(v, "(time.Time).UTC"); return ok }
-	// does Log hand the renderers an event whose Start/End are UTC()?
-	eventUTC := map[string]bool{}
-	eachInstr(logM, func(i ssa.Instruction) {
-		cc := callCommon(i)
-		if cc == nil || cc.StaticCallee() == nil || cc.StaticCallee().Name() != "write" {
-			return
-		}
-		for _, a := range cc.Args {
-			al, ok := a.(*ssa.Alloc)
-			if !ok || !namedIs(al.Type(), "logger.Event") {
-				continue
-			}
-			for _, fld := range []string{"Start", "End"} {
-				sts := fieldStores(al)[fld]
-				ok := len(sts) > 0
-				for _, st := range sts {
-					if !derives(st.Val, isUTC) {
-						ok = false
-					}
-				}
-				eventUTC[fld] = ok
-			}
-		}
-	})
-	n := 0
-	for _, f := range c.AllFns {
-		if rootPkg(f) != sp {
-			continue
-		}
-		eachInstr(f, func(i ssa.Instruction) {
-			call, ok := i.(*ssa.Call)
-			if !ok || !calendarAccessors[calleeName(&call.Call)] {
-				return
-			}
-			n++
-			recv := call.Call.Args[0]
-			ok2 := derives(recv, isUTC)
-			if !ok2 {
-				for _, fld := range []string{"Start", "End"} {
-					if _, isF := fieldOf(recv, "logger.Event", fld); isF && eventUTC[fld] {
-						ok2 = true
-					}
-				}
-			}
-			c.check("C20.U1", fnKey(f)+"|"+strings.TrimPrefix(calleeName(&call.Call), "(time.Time).")+" of a UTC time", call.Pos(), ok2,
-				"this calendar field is printed with a fixed UTC suffix ('Z' / '+0000') but is taken from a time that is not normalised with UTC(): whenever the process runs with TZ != UTC the log shows local wall-clock time labelled as UTC")
-		})
-	}
-	c.atLeast("C20.U1", "calendar accessors in the field renderers", n, 10)
-}
-
-func runC20F1(c *Ctx) {
-	pp := c.ppkg("logger")
-	if pp == nil {
-		return
-	}
-	// keys of the fields table
-	keys := map[string]bool{}
-	var doc string
-	for _, f := range pp.Syntax {
-		if f.Doc != nil && strings.Contains(f.Doc.Text(), "$remote_addr") {
-			doc = f.Doc.Text()
-		}
-		ast.Inspect(f, func(n ast.Node) bool {
-			vs, ok := n.(*ast.ValueSpec)
-			if !ok || len(vs.Names) != 1 || vs.Names[0].Name != "fields" || len(vs.Values) != 1 {
-				return true
-			}
-			cl, ok := vs.Values[0].(*ast.CompositeLit)
-			if !ok {
-				return true
-			}
-			for _, e := range cl.Elts {
-				if kv, ok := e.(*ast.KeyValueExpr); ok {
-					if s, ok := constStringExpr(pp.TypesInfo, kv.Key); ok {
-						keys[s] = true
-					}
-				}
-			}
-			return true
-		})
-	}
-	c.atLeast("C20.F1", "keys of the fields table", len(keys), 20)
-	if doc == "" {
-		c.undecided("C20.F1", "logger|package documentation", "the documentation comment listing the fields was not found")
-		return
-	}
-	tok := regexp.MustCompile(`\$[a-zA-Z0-9_]+(\.<name>)?`)
-	nDoc := 0
-	for _, line := range strings.Split(doc, "\n") {
-		line = strings.TrimSpace(line)
-		if !strings.HasPrefix(line, "$") {
-			continue
-		}
-		name := tok.FindString(line)
-		if name == "" || strings.HasPrefix(name, "$header") {
-			continue
-		}
-		nDoc++
-		c.check("C20.F1", "logger|documented field "+name, pp.Syntax[0].Pos(), keys[name], "the package documentation promises the field "+name+" but the fields table has no renderer for it: a format using it is rejected at start-up")
-	}
-	c.atLeast("C20.F1", "documented fields", nDoc, 20)
-	// named formats
-	for _, cn := range []string{"CommonFormat", "CombinedFormat"} {
-		obj := pp.Types.Scope().Lookup(cn)
-		k, ok := obj.(*types.Const)
-		if !ok {
-			c.undecided("C20.F1", "logger."+cn, "constant not found")
-			continue
-		}
-		format := strings.Trim(k.Val().ExactString(), "\"")
-		okAll := true
-		bad := ""
-		for _, t := range regexp.MustCompile(`\$[a-zA-Z0-9_]+(\.[a-zA-Z0-9_-]+)?`).FindAllString(format, -1) {
-			if strings.HasPrefix(t, "$header.") {
-				continue
-			}
-			if !keys[t] {
-				okAll, bad = false, t
-			}
-		}
-		c.check("C20.F1", "logger."+cn+"|uses only known fields", obj.Pos(), okAll, "the named format uses "+bad+", which is not in the fields table")
-	}
-}
-
-func runC20O1(c *Ctx) {
-	serve := c.method("proxy", "HTTPProxy", "ServeHTTP")
-	if !c.need("C20.O1", serve, "proxy.HTTPProxy.ServeHTTP") {
-		return
-	}
-	var logs []*ssa.Call
-	var inner ssa.Instruction
-	eachInstr(serve, func(i ssa.Instruction) {
-		call, ok := i.(*ssa.Call)
-		if !ok || !call.Call.IsInvoke() {
-			return
-		}
-		if call.Call.Method.Name() == "Log" && strings.HasSuffix(typeStr(call.Call.Value.Type()), "logger.Logger") {
-			logs = append(logs, call)
-		}
-		if call.Call.Method.Name() == "ServeHTTP" {
-			inner = i
-		}
-	})
-	c.atLeast("C20.O1", "Logger.Log calls in ServeHTTP", len(logs), 1)
-	multi := false
-	for _, a := range logs {
-		for _, b := range logs {
-			if pathAvoiding(a, b, nil) {
-				multi = true
-			}
-		}
-	}
-	for _, l := range logs {
-		c.check("C20.O1", "proxy.(*HTTPProxy).ServeHTTP|exactly one log line per request path", l.Pos(), !multi && len(logs) == 1,
-			"a request must produce exactly one access-log line: no path may execute Logger.Log twice")
-		c.check("C20.O1", "proxy.(*HTTPProxy).ServeHTTP|logged after the response was handled", l.Pos(), inner != nil && dominatesInstr(inner, l), "the event is logged after the inner handler returned (status and size are known)")
-		ev, ok := l.Call.Args[0].(*ssa.Alloc)
-		if !ok {
-			c.check("C20.O1", "proxy.(*HTTPProxy).ServeHTTP|event literal", l.Pos(), false, "the event must be built in place")
-			continue
-		}
-		fs := fieldStores(ev)
-		for _, fld := range []string{"Request", "Response", "RequestURL", "UpstreamURL"} {
-			okF := len(fs[fld]) > 0
-			for _, st := range fs[fld] {
-				if isNilConst(st.Val) {
-					okF = false
-				}
-				if !plainlyNonNil(st.Val, 0) {
-					okF = false
-				}
-			}
-			c.check("C20.O1", "proxy.(*HTTPProxy).ServeHTTP|event."+fld+" set to a non-nil value", l.Pos(), okF,
-				"the renderers dereference Event."+fld+" ($response_status, $request_url, $upstream_request_uri ...); it must be set to the request / a freshly built value")
-		}
-		okAddr := false
-		for _, st := range fs["UpstreamAddr"] {
-			if _, isHost := fieldOf(st.Val, "url.URL", "Host"); isHost {
-				okAddr = true
-			}
-		}
-		c.check("C20.O1", "proxy.(*HTTPProxy).ServeHTTP|event.UpstreamAddr is the target URL's host", l.Pos(), okAddr, "$upstream_addr/_host/_port describe the upstream the request was sent to")
 	}
 }
 
@@ -530,79 +672,4 @@ func runC20I1(c *Ctx) {
 	}
 	c.check("C20.I1", "package logger|no access to the response writer", pp.Syntax[0].Pos(), bad == "",
 		"logging must not be able to alter the response: nothing in package logger may hold or receive an http.ResponseWriter ("+bad+")")
-}
-
-func runC20B1(c *Ctx) {
-	logM := c.method("logger", "logger", "Log")
-	if logM == nil {
-		return
-	}
-	var get, reset, put, wr ssa.Instruction
-	var buf ssa.Value
-	eachInstr(logM, func(i ssa.Instruction) {
-		cc := callCommon(i)
-		if cc == nil {
-			return
-		}
-		switch calleeName(cc) {
-		case "(*sync.Pool).Get":
-			get = i
-		case "(*sync.Pool).Put":
-			put = i
-		case "(*bytes.Buffer).Reset":
-			reset = i
-			buf = cc.Args[0]
-		}
-		if cc.IsInvoke() && cc.Method.Name() == "Write" {
-			wr = i
-		}
-	})
-	ok := get != nil && reset != nil && put != nil && wr != nil && dominatesInstr(get, reset) && dominatesInstr(reset, wr) && dominatesInstr(wr, put)
-	c.check("C20.B1", "(*logger.logger).Log|pooled buffer: Get, Reset, write, Put", logM.Pos(), ok,
-		"a buffer from the pool still holds the previous line: it must be Reset before rendering, written out, and only then put back (a buffer put back earlier is rendered into by another request while it is being written)")
-	if ok {
-		// nothing touches the buffer after Put
-		after := false
-		eachInstr(logM, func(j ssa.Instruction) {
-			if j != put && pathAvoiding(put, j, nil) {
-				if cc := callCommon(j); cc != nil {
-					for _, a := range cc.Args {
-						if a == buf {
-							after = true
-						}
-					}
-				}
-			}
-		})
-		c.check("C20.B1", "(*logger.logger).Log|no use of the buffer after Put", put.Pos(), !after, "after Put another request may own the buffer")
-	}
-	if wr != nil {
-		c.check("C20.B1", "(*logger.logger).Log|shared writer used under the mutex", wr.Pos(), len(heldAt(wr, true)) > 0,
-			"concurrent requests share the log writer; lines interleave (and os.File offsets race) unless the write happens under l.mu")
-	}
-}
-
-// plainlyNonNil: a fresh allocation, the handler's own parameter, the result of a net/http method documented to
-// return a non-nil copy (WithContext, Clone), or a merge of such values.
-func plainlyNonNil(v ssa.Value, depth int) bool {
-	if depth > 6 {
-		return false
-	}
-	switch x := v.(type) {
-	case *ssa.Alloc, *ssa.Parameter:
-		return true
-	case *ssa.Phi:
-		for _, e := range x.Edges {
-			if e != x && !plainlyNonNil(e, depth+1) {
-				return false
-			}
-		}
-		return true
-	case *ssa.Call:
-		switch calleeName(&x.Call) {
-		case "(*net/http.Request).WithContext", "(*net/http.Request).Clone":
-			return true
-		}
-	}
-	return false
 }
